@@ -202,6 +202,30 @@ def _wait_for_memory(need_gb=4.0, max_wait=900):
         time.sleep(3.0)
 
 
+class _global_cc_slot(object):
+    """One of N machine-wide compiler slots (lock files shared by every verif process on the machine, whichever copy of /verif it runs from):
+    several checks building at once (seeded-break runs, a development copy) must not start 60 compilers of 2.4 GB each."""
+    N = max(4, min(int(os.environ.get("VERIF_JOBS", "16")), 16))
+    DIR = "/dev/shm/verif-ccslots"
+
+    def __enter__(self):
+        import fcntl
+        os.makedirs(self.DIR, exist_ok=True)
+        while True:
+            for i in range(self.N):
+                f = open(os.path.join(self.DIR, "slot%d" % i), "w")
+                try:
+                    fcntl.flock(f, fcntl.LOCK_EX | fcntl.LOCK_NB)
+                    self.f = f
+                    return self
+                except OSError:
+                    f.close()
+            time.sleep(0.5)
+
+    def __exit__(self, *a):
+        self.f.close()
+
+
 def build_harness(flavour):
     """Compile and link the harness binary `vh` against the flavour's library. Returns path to vh."""
     spec = FLAVOURS[flavour]
@@ -253,7 +277,7 @@ def build_harness(flavour):
 
     def cc(job):
         s, o, key = job
-        with _CC_SLOTS:
+        with _CC_SLOTS, _global_cc_slot():
             _wait_for_memory()
             rc, out, dt = run([spec["cxx"]] + flags + ["-c", s, "-o", o], logfile=logfile)
         return rc, out, job
